@@ -103,7 +103,21 @@ def m_fwrite(I, st, fr, n, this, args, an):
     pos = fpos(st, root)
     I.emit('fwrite', st, node=n, root=root, pos=pos, size=total, src=src, fval=f)
     set_fpos(st, root, binop('+', pos, total, st.sym) if pos != TOP and total != TOP else TOP)
-    return [(st, cnt)]
+    # ISO C: the number of elements written; zero when size or nmemb is zero (write errors are not modelled)
+    out = []
+    zs = compare('==', sz, C(0), st.sym) if is_int(sz) and sz != TOP else False
+    zc = compare('==', cnt, C(0), st.sym) if is_int(cnt) and cnt != TOP else False
+    if zs is True or zc is True:
+        return [(st, C(0))]
+    if zs is None:
+        s0 = st.copy()
+        if I.refine(s0, fr, None, None, sz, C(0), '=='):
+            s0.note((nloc(n), 'fwrite of 0-byte elements'))
+            out.append((s0, C(0)))
+        if not I.refine(st, fr, None, None, sz, C(0), '!='):
+            return out
+    out.append((st, cnt))
+    return out
 
 
 def m_fseek(I, st, fr, n, this, args, an):
